@@ -113,3 +113,66 @@ extern "C" void h_s01sym_tt() { s01sym<true, true>(); }
 extern "C" void h_s01sym_tf() { s01sym<true, false>(); }
 extern "C" void h_s01sym_ft() { s01sym<false, true>(); }
 extern "C" void h_s01sym_ff() { s01sym<false, false>(); }
+
+// C02.b: the symbolic perturbation is a DIRECTION.  Every tie-break expression
+// of the cascade is homogeneous of degree one in the vertex / face normals, so
+// multiplying ALL normals of both operands by 2 (exact in binary floating
+// point) must not change any answer of Kernel11 - sign or intersection point -
+// for any operands, exact ties included.  (A tie-break that rounds, truncates
+// or thresholds a normal component fails this.)
+static void edge_mesh(Manifold::Impl& m, double scale, const vec3 pos[2], const vec3 vn[2], const vec3 fn[2]) {
+  m.vertPos_.resize(2, vec3(0.0));
+  m.vertNormal_.resize(2, vec3(0.0));
+  for (int i = 0; i < 2; i++) { m.vertPos_[i] = pos[i]; m.vertNormal_[i] = vn[i] * scale; }
+  m.faceNormal_.resize(2, vec3(0.0));
+  for (int i = 0; i < 2; i++) m.faceNormal_[i] = fn[i] * scale;
+  m.halfedge_.resize(6);
+  m.halfedge_.Set(0, 0, 3, 0);  // face 0: 0 -> 1, paired with halfedge 3 of face 1
+  m.halfedge_.Set(1, 1, -1, 1);
+  m.halfedge_.Set(2, -1, -1, -1);
+  m.halfedge_.Set(3, 1, 0, 1);
+  m.halfedge_.Set(4, 0, -1, 0);
+  m.halfedge_.Set(5, -1, -1, -1);
+}
+template <bool expandP>
+static void k11scale() {
+#ifdef VF_TIECFG
+  // The perturbation only acts at exact ties, so the positions are CONCRETE
+  // tie configurations (chosen symbolically among the list) and ALL normals
+  // are arbitrary doubles: the position arithmetic folds to constants and the
+  // whole tie-break logic is decided at full precision.
+  static const double cfg[5][12] = {
+      // P start, P end, Q start, Q end
+      {0, 0, 0, 2, 2, 0, 0, 2, 0, 2, 0, 0},   // crossing at (1,1), z tie, x ties between end points
+      {0, 1, 0, 4, 3, 0, 1, 4, 0, 3, 0, 0},   // crossing at (2,2), z tie, no other tie
+      {0, 0, 0, 2, 2, 2, 0, 2, 2, 2, 0, 0},   // sloped in z, tie at the crossing (z = 1)
+      {0, 0, 0, 2, 0, 0, 1, 0, 0, 1, 2, 0},   // Q starts ON the P edge (y and z ties), Q vertical in the projection
+      {0, 0, 0, 2, 2, 0, 0, 2, 1, 2, 0, 1}};  // crossing without z tie (Q above P): ties must not matter
+  const int c = vf_range(0, 4);
+  vec3 pp[2], qp[2];
+  for (int k = 0; k < 3; k++) { pp[0][k] = cfg[c][k]; pp[1][k] = cfg[c][3 + k]; qp[0][k] = cfg[c][6 + k]; qp[1][k] = cfg[c][9 + k]; }
+#elif defined(VF_LATTICE)  // positions on a small integer lattice (ties are then frequent); normals stay arbitrary
+  auto L = []() { return vec3((double)vf_range(-VF_LATTICE, VF_LATTICE), (double)vf_range(-VF_LATTICE, VF_LATTICE), (double)vf_range(-VF_LATTICE, VF_LATTICE)); };
+  vec3 pp[2] = {L(), L()}, qp[2] = {L(), L()};
+#else
+  vec3 pp[2] = {V(), V()}, qp[2] = {V(), V()};
+#endif
+  vec3 pvn[2] = {V(), V()}, pfn[2] = {V(), V()};
+  vec3 qvn[2] = {V(), V()}, qfn[2] = {V(), V()};
+  Manifold::Impl p1, q1, p2, q2;
+  edge_mesh(p1, 1.0, pp, pvn, pfn);
+  edge_mesh(q1, 1.0, qp, qvn, qfn);
+  edge_mesh(p2, 2.0, pp, pvn, pfn);
+  edge_mesh(q2, 2.0, qp, qvn, qfn);
+  Kernel11<expandP> ka{p1, q1}, kb{p2, q2};
+  // the kernel is always called with start < end vertex order on both edges
+  const auto ra = ka(0, 0, 1, 0, 0, 1);
+  const auto rb = kb(0, 0, 1, 0, 0, 1);
+  VF_ASSERT(ra.first == rb.first);
+  VF_ASSERT(ra.first >= -1 && ra.first <= 1);
+  if (ra.first != 0)
+    for (int k = 0; k < 4; k++) VF_ASSERT(ra.second[k] == rb.second[k]);
+  VF_END();
+}
+extern "C" void h_k11scale_t() { k11scale<true>(); }
+extern "C" void h_k11scale_f() { k11scale<false>(); }
